@@ -121,6 +121,16 @@ pub trait Rep: QmcStepper + GraphWeights + SwapManagers + Clone + Send + Sync {
     fn json(&self) -> serde_json::Value;
     /// matrix element of this replica's Hamiltonian
     fn weight(&self, op: &OpRec) -> f64;
+    /// one update sweep that does not go through `timestep`'s `debug_assert!(self.verify())`
+    fn safe_step(&mut self, beta: f64);
+    /// grow the operator manager by hand (public `get_manager_mut().set_cutoff`), leaving the sampler's
+    /// own cutoff alone; false if this sampler kind offers no such route
+    fn grow_manager(&mut self, to: usize) -> bool;
+    /// the number of bonds the sampler's own updates may use (legal bond indices are below it)
+    fn num_bonds(&self) -> usize;
+    /// all bond indices a manager of this sampler may ever be asked about
+    fn bond_range(&self) -> usize;
+    fn self_verify(&self) -> bool;
 }
 
 fn ops_of<M: OpContainer>(m: &M) -> Vec<OpRec> {
@@ -173,6 +183,24 @@ impl Rep for IsingQ {
         let info = self.make_haminfo();
         IsingQ::hamiltonian(&info, &op.1, op.0, &op.2, &op.3)
     }
+    fn safe_step(&mut self, beta: f64) {
+        self.single_diagonal_step(beta);
+        self.single_cluster_step();
+    }
+    fn grow_manager(&mut self, to: usize) -> bool {
+        self.get_manager_mut().set_cutoff(to);
+        true
+    }
+    fn num_bonds(&self) -> usize {
+        let nv = self.get_nvars();
+        self.get_edges().len() + nv + if self.get_longitudinal_field().abs() > f64::EPSILON { nv } else { 0 }
+    }
+    fn bond_range(&self) -> usize {
+        self.get_edges().len() + 2 * self.get_nvars()
+    }
+    fn self_verify(&self) -> bool {
+        self.verify()
+    }
 }
 
 impl Rep for GenQ {
@@ -214,6 +242,21 @@ impl Rep for GenQ {
     }
     fn weight(&self, op: &OpRec) -> f64 {
         self.get_bonds()[op.0].at(&op.2, &op.3).unwrap()
+    }
+    fn safe_step(&mut self, beta: f64) {
+        self.timestep(beta);
+    }
+    fn grow_manager(&mut self, _to: usize) -> bool {
+        false
+    }
+    fn num_bonds(&self) -> usize {
+        self.get_bonds().len()
+    }
+    fn bond_range(&self) -> usize {
+        self.get_bonds().len()
+    }
+    fn self_verify(&self) -> bool {
+        true
     }
 }
 
@@ -443,21 +486,65 @@ fn inv(x: f64) -> f64 {
 /// Model-independent Metropolis probability of exchanging the configurations of `a` and `b`
 /// (equal cutoffs): min(1, W_a(C_b) W_b(C_a) / (W_a(C_a) W_b(C_b))), W_x(C) = beta_x^n (L-n)!/L! prod w_x.
 pub fn oracle_ratio<Q: Rep>(a: &Q, ba: f64, b: &Q, bb: f64) -> f64 {
+    oracle_ratio_l(a, ba, b, bb, None)
+}
+
+/// (L-n)!/L!
+fn comb(l: usize, n: usize) -> f64 {
+    if n > l {
+        return f64::NAN;
+    }
+    let mut r = 1.0f64;
+    for k in 0..n {
+        r /= (l - k) as f64;
+    }
+    r
+}
+
+/// `cutoffs`: the sampler cutoffs in force at the two positions (None: equal, the factor cancels).
+/// The product is taken ratio by ratio so that it does not depend on the energy unit.
+pub fn oracle_ratio_l<Q: Rep>(a: &Q, ba: f64, b: &Q, bb: f64, cutoffs: Option<(usize, usize)>) -> f64 {
     let (ca, cb) = (a.ops(), b.ops());
-    let (na, nb) = (ca.len() as i32, cb.len() as i32);
-    let mut num = 1.0f64; // W_a(C_b) W_b(C_a), without the beta and combinatorial factors
-    let mut den = 1.0f64; // W_a(C_a) W_b(C_b)
+    let (na, nb) = (ca.len(), cb.len());
+    let mut r = (ba / bb).powi(nb as i32 - na as i32);
     for op in &cb {
-        num *= a.weight(op);
-        den *= b.weight(op);
+        // W_a(C_b) / W_b(C_b)
+        r *= a.weight(op) / b.weight(op);
     }
     for op in &ca {
-        num *= b.weight(op);
-        den *= a.weight(op);
+        r *= b.weight(op) / a.weight(op);
     }
-    // beta factors: ba^nb bb^na / (ba^na bb^nb) = (ba/bb)^(nb-na); combinatorial factors cancel for equal L
-    let r = (ba / bb).powi(nb - na) * num / den;
+    if let Some((la, lb)) = cutoffs {
+        if la != lb {
+            r *= comb(la, nb) * comb(lb, na) / (comb(la, na) * comb(lb, nb));
+        }
+    }
     if r > 1.0 { 1.0 } else { r }
+}
+
+/// Independent legality / bookkeeping check of one replica: every stored operator has a bond index
+/// below the sampler's `num_bonds` and a positive weight under ITS Hamiltonian; `get_bond_count`
+/// equals a scan of the string for every bond.
+pub fn replica_sound<Q: Rep>(q: &Q) -> Result<(), String> {
+    let ops = q.ops();
+    let nb = q.num_bonds();
+    for op in &ops {
+        if op.0 >= nb {
+            return Err(format!("operator on bond {} but the Hamiltonian has only {} bonds", op.0, nb));
+        }
+        let w = q.weight(op);
+        if !(w > 0.0) {
+            return Err(format!("operator on bond {} {:?}->{:?} has weight {} under this position's Hamiltonian", op.0, op.2, op.3, w));
+        }
+    }
+    for b in 0..q.bond_range() {
+        let scan = ops.iter().filter(|o| o.0 == b).count();
+        let got = q.get_bond_count(b);
+        if got != scan {
+            return Err(format!("get_count({}) = {} but the string holds {} operators of that bond", b, got, scan));
+        }
+    }
+    Ok(())
 }
 
 fn describe_container<Q: Rep>(tc: &TC<Q>) -> String {
@@ -558,9 +645,18 @@ pub fn step_case_ex<Q: Rep>(tc: &TC<Q>, script_seed: u64, bisect: bool, hist: &s
     let maxc = before.iter().map(|s| s.sampler_cutoff).max().unwrap_or(0);
     if n >= 2 {
         for (i, s) in after.iter().enumerate() {
-            if s.sampler_cutoff != maxc || s.mgr_cutoff != maxc {
-                fail(format!("position {} cutoff {} / manager {} after the step, ladder maximum was {}", i, s.sampler_cutoff, s.mgr_cutoff, maxc));
+            if s.sampler_cutoff != maxc || s.mgr_cutoff < maxc {
+                fail(format!(
+                    "after a tempering step all replicas must report ONE cutoff, the previous ladder maximum {}: position {} reports cutoff {} (manager holds {} slots)",
+                    maxc, i, s.sampler_cutoff, s.mgr_cutoff
+                ));
             }
+        }
+    }
+    // --- right after the step every string is legal for ITS Hamiltonian and the counters match a scan ---
+    for (i, (q, _)) in after_tc.graph_ref().iter().enumerate() {
+        if let Err(m) = replica_sound(&q.q) {
+            fail(format!("after the tempering step, position {}: {}", i, m));
         }
     }
     // --- frames stay, configurations move exactly as the accepted swaps say ---
@@ -625,7 +721,7 @@ pub fn step_case_ex<Q: Rep>(tc: &TC<Q>, script_seed: u64, bisect: bool, hist: &s
             let gr = state_tc.graph_ref();
             (gr[d.left].0.q.clone(), gr[d.left + 1].0.q.clone())
         };
-        let want = oracle_ratio(&ga, betas[d.left], &gb, betas[d.left + 1]);
+        let want = oracle_ratio_l(&ga, betas[d.left], &gb, betas[d.left + 1], Some((after[d.left].sampler_cutoff, after[d.left + 1].sampler_cutoff)));
         if bisect && (p - want).abs() > 1e-9 {
             fail(format!(
                 "pair ({},{}) swaps with probability {:.12} but the Metropolis ratio of the configurations is {:.12}",
